@@ -1,3 +1,5 @@
+//go:build verif && (all || c24)
+
 package main
 
 import (
